@@ -665,6 +665,7 @@ fn stage_tags(spec: &Stage, batched: bool) -> &'static str {
 
 impl<'a> Oracle<'a> {
     fn div<X>(&self, tags: &'static str, what: String) -> Result<X, Div> {
+        crate::common::note_divergence(tags, &what);
         Err(Div { prop: tags, what })
     }
 
